@@ -120,16 +120,17 @@ func (g *gen) genFuncFor(ftyp *types.Signature) error {
 	gStr := g.TypeString(gtyp)
 	firstStr := varnames(ftyp.Params())
 	secondStr := varnames(styp)
+	f := derive.UnusedName("f", gtyp.Params(), gtyp.Results())
 	p.P("")
 	p.P("// %s combines a function that returns a function, into one function.", name)
-	p.P("func %s(f %s) %s {", name, fStr, gStr)
+	p.P("func %s(%s %s) %s {", name, f, fStr, gStr)
 	p.In()
 	p.P("return %s {", gStr)
 	p.In()
 	if gtyp.Results().Len() == 0 {
-		p.P("f(%s)(%s)", strings.Join(firstStr, ", "), strings.Join(secondStr, ", "))
+		p.P("%s(%s)(%s)", f, strings.Join(firstStr, ", "), strings.Join(secondStr, ", "))
 	} else {
-		p.P("return f(%s)(%s)", strings.Join(firstStr, ", "), strings.Join(secondStr, ", "))
+		p.P("return %s(%s)(%s)", f, strings.Join(firstStr, ", "), strings.Join(secondStr, ", "))
 	}
 	p.Out()
 	p.P("}")
